@@ -132,7 +132,16 @@ QueryEvents == { Ev(op, p, loc, <<>>, NoGlob) : op \in QueryOps, p \in QPaths, l
 ListEvents == { Ev("list", p, loc, <<>>, g) : p \in LDirs, loc \in BOOLEAN, g \in GlobFamily }
              \cup { Ev("subdirectories", p, loc, <<>>, NoGlob) : p \in LDirs, loc \in BOOLEAN }
 TypedEvents == { Ev(op, p, loc, <<>>, NoGlob) : op \in ReadHelpers \cup WriteHelpers, p \in TPaths, loc \in BOOLEAN }
-ModelEvents == WriteEvents \cup CreateEvents \cup QueryEvents \cup ListEvents
+\* C14: paths without a final component, in LOCALIZED calls of every operation (an unlocalized rooted path would
+\* leave the layer and is out of scope): "/", "//", "/..", ".", "./", "..", "m/..", "m/../"  ("" is in the sets above)
+DegPaths == { [a |-> TRUE, c |-> <<>>, t |-> FALSE], [a |-> TRUE, c |-> <<>>, t |-> TRUE],
+              [a |-> TRUE, c |-> <<DotDotC>>, t |-> FALSE], [a |-> FALSE, c |-> <<DotC>>, t |-> FALSE],
+              [a |-> FALSE, c |-> <<DotC>>, t |-> TRUE], [a |-> FALSE, c |-> <<DotDotC>>, t |-> FALSE],
+              [a |-> FALSE, c |-> <<m, DotDotC>>, t |-> FALSE], [a |-> FALSE, c |-> <<m, DotDotC>>, t |-> TRUE] }
+DegEvents == { Ev(op, p, TRUE, <<>>, NoGlob) : op \in QueryOps \cup {"create_dir", "list", "subdirectories"}, p \in DegPaths }
+             \cup { Ev("write", p, TRUE, P3, NoGlob) : p \in DegPaths }
+             \cup { Ev("list", p, TRUE, <<>>, Glob("**/*")) : p \in DegPaths }
+ModelEvents == WriteEvents \cup CreateEvents \cup QueryEvents \cup ListEvents \cup DegEvents
 
 \* candidates for what a write may leave on disk: the payload itself, or a literal-only stream of it
 CandM(cfg, ev) == { [b |-> ev.data, x |-> ModelX(ev.data)],
@@ -278,11 +287,20 @@ TwinLaws ==
     IN OutcomesI(I, L, cfgOf, lang, ev, cand)
          = UNION { IF act.ok THEN OutcomesI(I, L, cfgOf, lang, Twin(ev, act.p), cand) ELSE failing : act \in acts }
 
+\* a localized call on a path without a final component fails with a localisation error (None for resolve) and
+\* changes nothing, under every interpretation, for every game and language
+DegLaws ==
+  \A ev \in DegEvents : \A I \in Interps :
+    /\ \A act \in Actuals(cfgOf, lang, ev.p, TRUE) : ~act.ok
+    /\ \A o \in OutcomesI(I, L, cfgOf, lang, ev, {}) :
+         /\ ~o.res.ok /\ o.st = L
+         /\ o.res.e = IF ev.op = "resolve" THEN "none" ELSE "loc"
+
 LawSel == IF "FS_LAWS" \in DOMAIN IOEnv THEN IOEnv.FS_LAWS ELSE "all"
 Inv == /\ WellFormed(L)
        /\ LawSel \in {"all", "c12"} => MutationLaws /\ WriteLaws /\ CreateDirLaws /\ QueryLaws
        /\ LawSel \in {"all", "c13"} => ListLaws
-       /\ LawSel \in {"all", "c14"} => TwinLaws
+       /\ LawSel \in {"all", "c14"} => TwinLaws /\ DegLaws
 
 \* --- step property: whatever happens, the lower layers stay as they are
 LowerLayersStep == [][/\ Len(L') = Len(L)
@@ -307,5 +325,19 @@ ASSUME IF GenMode
               PrintT("W " \o ToJson([game |-> cl[1], lang |-> cl[2],
                                      twins |-> SetToSeq({ TwinOf(cl[1], cl[2], ev.p) : ev \in GenEvents })]))
        ELSE TRUE
+\* C12: payloads around and beyond the 4096-byte LZ window, for the compressed-suffix writes (one "B" line; the
+\* harness writes them into the empty configuration C8 and reads them back).  Content classes: periodic with a
+\* period that does not divide the window, text-like over a small alphabet, incompressible.
+Periodic(n, per) == [k \in 1..n |-> 65 + ((k * 3) % per)]
+TextLike(n) == [k \in 1..n |-> 97 + ((((k % 251) * (k % 241)) + (k \div 7)) % 4)]
+Incompr(n) == [k \in 1..n |-> ((k % 251) * 37 + (k % 241) * 101 + (k \div 3) * 7) % 256]
+BigPayloads == IF Tier = "quick"
+               THEN { Periodic(4097, 7), TextLike(4097), Periodic(8200, 13), TextLike(20000), Incompr(4096) }
+               ELSE { Periodic(n, 7) : n \in {4095, 4096, 4097, 8200} } \cup { TextLike(n) : n \in {4095, 4096, 4097, 8200, 20000} }
+                    \cup { Incompr(n) : n \in {4095, 4097, 8200} } \cup { Periodic(20000, 4099), Periodic(12000, 13) }
+BigEvents == { Ev("write", p, FALSE, s, NoGlob) : p \in { Pth(<<hcmp>>), Pth(<<icms>>), Pth(<<glz>>) }, s \in BigPayloads }
+             \cup { Ev("write", Pth(<<m, glz>>), TRUE, TextLike(4097), NoGlob), Ev("write", Pth(<<m, hcmp>>), TRUE, TextLike(4097), NoGlob),
+                    Ev("write", Pth(<<fbin>>), FALSE, TextLike(4097), NoGlob) }
+ASSUME IF GenMode /\ "FS_BIG" \in DOMAIN IOEnv THEN PrintT("B " \o ToJson(SetToSeq({ WithRaw(ev) : ev \in BigEvents }))) ELSE TRUE
 Emit == PrintT("S " \o ToJson([game |-> game, lang |-> lang, depth |-> depth, layers |-> L]))
 =============================================================================
